@@ -1,7 +1,2063 @@
-//! (stub — to be filled in) suite `float`.
-use crate::out::Out;
+//! Suite `float` (C12 float part, C06, C07): `FloatInterval` primitives, the float / mixed arms
+//! of `Context::try_set_min/max`, float views, `LessThanOrEquals` / `Eq` at float views and the
+//! `FloatLin*` propagators, driven directly and compared BIT-EXACTLY with the Lean model
+//! (`fl.*` ops; every f64 travels as the decimal value of `to_bits()`, `nan` for NaNs), plus
+//! exact-arithmetic oracles (module `ex`) and an API-level oracle stream (`#flapi` lines).
+use crate::out::{guarded, Out};
+use crate::rng::Rng;
+use selen::constraints::props::{PropId, Propagators};
+use selen::optimization::ulp_utils::UlpUtils;
+use selen::variables::domain::float_interval::{precision_to_step_size, FloatInterval};
+use selen::variables::views::{Context, View, ViewExt};
+use selen::variables::{Val, Var, VarId, Vars};
+use std::cell::RefCell;
 
-pub fn suite(_out: &mut Out, _seed: u64, _count: u64, _args: &[String]) {}
+// ---------------------------------------------------------------------------------------------
+// exact dyadic rationals (sign, magnitude, binary exponent): every finite f64 is one
+// ---------------------------------------------------------------------------------------------
+pub mod ex {
+    use std::cmp::Ordering;
+
+    #[derive(Clone, Debug)]
+    pub struct Ex {
+        neg: bool,
+        mag: Vec<u32>, // little endian, no leading (top) zero words; zero = empty
+        exp: i32,
+    }
+
+    fn trim(v: &mut Vec<u32>) {
+        while v.last() == Some(&0) {
+            v.pop();
+        }
+    }
+    fn shl(m: &[u32], bits: u32) -> Vec<u32> {
+        if m.is_empty() {
+            return vec![];
+        }
+        let words = (bits / 32) as usize;
+        let b = bits % 32;
+        let mut r = vec![0u32; words];
+        let mut carry = 0u32;
+        for w in m {
+            if b == 0 {
+                r.push(*w);
+            } else {
+                r.push((w << b) | carry);
+                carry = w >> (32 - b);
+            }
+        }
+        if carry != 0 {
+            r.push(carry);
+        }
+        r
+    }
+    fn cmp_mag(a: &[u32], b: &[u32]) -> Ordering {
+        if a.len() != b.len() {
+            return a.len().cmp(&b.len());
+        }
+        for i in (0..a.len()).rev() {
+            if a[i] != b[i] {
+                return a[i].cmp(&b[i]);
+            }
+        }
+        Ordering::Equal
+    }
+    fn add_mag(a: &[u32], b: &[u32]) -> Vec<u32> {
+        let mut r = Vec::with_capacity(a.len().max(b.len()) + 1);
+        let mut c = 0u64;
+        for i in 0..a.len().max(b.len()) {
+            let s = *a.get(i).unwrap_or(&0) as u64 + *b.get(i).unwrap_or(&0) as u64 + c;
+            r.push(s as u32);
+            c = s >> 32;
+        }
+        if c != 0 {
+            r.push(c as u32);
+        }
+        r
+    }
+    /// a - b, a >= b
+    fn sub_mag(a: &[u32], b: &[u32]) -> Vec<u32> {
+        let mut r = Vec::with_capacity(a.len());
+        let mut borrow = 0i64;
+        for i in 0..a.len() {
+            let mut d = a[i] as i64 - *b.get(i).unwrap_or(&0) as i64 - borrow;
+            if d < 0 {
+                d += 1 << 32;
+                borrow = 1;
+            } else {
+                borrow = 0;
+            }
+            r.push(d as u32);
+        }
+        trim(&mut r);
+        r
+    }
+
+    impl Ex {
+        pub fn zero() -> Ex {
+            Ex { neg: false, mag: vec![], exp: 0 }
+        }
+        pub fn from_i64(v: i64) -> Ex {
+            let a = v.unsigned_abs();
+            let mut mag = vec![a as u32, (a >> 32) as u32];
+            trim(&mut mag);
+            Ex { neg: v < 0, mag, exp: 0 }
+        }
+        /// exact value of a finite f64
+        pub fn from_f64(x: f64) -> Ex {
+            assert!(x.is_finite());
+            let bits = x.to_bits();
+            let e = ((bits >> 52) & 0x7ff) as i32;
+            let m = bits & ((1u64 << 52) - 1);
+            let (mant, exp) = if e == 0 { (m, -1074) } else { (m | (1u64 << 52), e - 1075) };
+            let mut mag = vec![mant as u32, (mant >> 32) as u32];
+            trim(&mut mag);
+            Ex { neg: (bits >> 63) == 1, mag, exp }
+        }
+        pub fn is_zero(&self) -> bool {
+            self.mag.is_empty()
+        }
+        pub fn neg(&self) -> Ex {
+            Ex { neg: !self.neg && !self.is_zero(), mag: self.mag.clone(), exp: self.exp }
+        }
+        pub fn abs(&self) -> Ex {
+            Ex { neg: false, mag: self.mag.clone(), exp: self.exp }
+        }
+        fn aligned(&self, o: &Ex) -> (Vec<u32>, Vec<u32>, i32) {
+            let e = self.exp.min(o.exp);
+            (shl(&self.mag, (self.exp - e) as u32), shl(&o.mag, (o.exp - e) as u32), e)
+        }
+        pub fn add(&self, o: &Ex) -> Ex {
+            if self.is_zero() {
+                return o.clone();
+            }
+            if o.is_zero() {
+                return self.clone();
+            }
+            let (a, b, e) = self.aligned(o);
+            if self.neg == o.neg {
+                Ex { neg: self.neg, mag: add_mag(&a, &b), exp: e }
+            } else {
+                match cmp_mag(&a, &b) {
+                    Ordering::Equal => Ex::zero(),
+                    Ordering::Greater => Ex { neg: self.neg, mag: sub_mag(&a, &b), exp: e },
+                    Ordering::Less => Ex { neg: o.neg, mag: sub_mag(&b, &a), exp: e },
+                }
+            }
+        }
+        pub fn sub(&self, o: &Ex) -> Ex {
+            self.add(&o.neg())
+        }
+        pub fn mul(&self, o: &Ex) -> Ex {
+            if self.is_zero() || o.is_zero() {
+                return Ex::zero();
+            }
+            let mut r = vec![0u32; self.mag.len() + o.mag.len() + 1];
+            for (i, a) in self.mag.iter().enumerate() {
+                let mut c = 0u64;
+                for (j, b) in o.mag.iter().enumerate() {
+                    let t = r[i + j] as u64 + (*a as u64) * (*b as u64) + c;
+                    r[i + j] = t as u32;
+                    c = t >> 32;
+                }
+                let mut k = i + o.mag.len();
+                while c != 0 {
+                    let t = r[k] as u64 + c;
+                    r[k] = t as u32;
+                    c = t >> 32;
+                    k += 1;
+                }
+            }
+            trim(&mut r);
+            Ex { neg: self.neg != o.neg, mag: r, exp: self.exp + o.exp }
+        }
+        /// multiply by 2^k
+        pub fn scale2(&self, k: i32) -> Ex {
+            Ex { neg: self.neg, mag: self.mag.clone(), exp: self.exp + k }
+        }
+        pub fn cmp(&self, o: &Ex) -> Ordering {
+            let d = self.sub(o);
+            if d.is_zero() {
+                Ordering::Equal
+            } else if d.neg {
+                Ordering::Less
+            } else {
+                Ordering::Greater
+            }
+        }
+        pub fn lt(&self, o: &Ex) -> bool {
+            self.cmp(o) == Ordering::Less
+        }
+        pub fn le(&self, o: &Ex) -> bool {
+            self.cmp(o) != Ordering::Greater
+        }
+        pub fn gt(&self, o: &Ex) -> bool {
+            self.cmp(o) == Ordering::Greater
+        }
+        pub fn ge(&self, o: &Ex) -> bool {
+            self.cmp(o) != Ordering::Less
+        }
+        pub fn max(&self, o: &Ex) -> Ex {
+            if self.lt(o) { o.clone() } else { self.clone() }
+        }
+        /// rough f64 rendering for messages only
+        pub fn approx(&self) -> f64 {
+            let mut v = 0.0f64;
+            for w in self.mag.iter().rev() {
+                v = v * 4294967296.0 + *w as f64;
+            }
+            let v = v * (self.exp as f64).exp2();
+            if self.neg { -v } else { v }
+        }
+    }
+}
+use ex::Ex;
+fn exf(x: f64) -> Ex {
+    Ex::from_f64(x)
+}
+
+// ---------------------------------------------------------------------------------------------
+// protocol values
+// ---------------------------------------------------------------------------------------------
+pub fn sf(x: f64) -> String {
+    if x.is_nan() { "nan".into() } else { x.to_bits().to_string() }
+}
+fn pf(s: &str) -> Option<f64> {
+    if s == "nan" { Some(f64::NAN) } else { s.parse::<u64>().ok().map(f64::from_bits) }
+}
+
+#[derive(Clone, Copy, Debug, PartialEq)]
+pub enum FV {
+    I(i32),
+    F(f64),
+}
+impl FV {
+    fn tokens(&self) -> String {
+        match self {
+            FV::I(i) => format!("i {i}"),
+            FV::F(f) => format!("f {}", sf(*f)),
+        }
+    }
+    fn val(&self) -> Val {
+        match self {
+            FV::I(i) => Val::ValI(*i),
+            FV::F(f) => Val::ValF(*f),
+        }
+    }
+    fn show(v: Val) -> String {
+        match v {
+            Val::ValI(i) => format!("i:{i}"),
+            Val::ValF(f) => format!("f:{}", sf(f)),
+        }
+    }
+    fn parse<'a>(t: &mut std::slice::Iter<'a, &'a str>) -> Option<FV> {
+        match *t.next()? {
+            "i" => t.next()?.parse().ok().map(FV::I),
+            "f" => pf(t.next()?).map(FV::F),
+            _ => None,
+        }
+    }
+    fn as_f64(&self) -> f64 {
+        match self {
+            FV::I(i) => *i as f64,
+            FV::F(f) => *f,
+        }
+    }
+}
+
+#[derive(Clone, Debug)]
+pub enum FVS {
+    C(FV),
+    V(usize),
+    Opp(Box<FVS>),
+    Plus(FV, Box<FVS>),
+    TPos(FV, Box<FVS>),
+    Times(FV, Box<FVS>),
+    TNeg(FV, Box<FVS>),
+    Next(Box<FVS>),
+    Prev(Box<FVS>),
+}
+impl FVS {
+    pub fn tokens(&self) -> String {
+        match self {
+            FVS::C(k) => format!("c {}", k.tokens()),
+            FVS::V(i) => format!("v {i}"),
+            FVS::Opp(v) => format!("opp {}", v.tokens()),
+            FVS::Plus(k, v) => format!("plus {} {}", k.tokens(), v.tokens()),
+            FVS::TPos(k, v) => format!("tpos {} {}", k.tokens(), v.tokens()),
+            FVS::Times(k, v) => format!("times {} {}", k.tokens(), v.tokens()),
+            FVS::TNeg(k, v) => format!("tneg {} {}", k.tokens(), v.tokens()),
+            FVS::Next(v) => format!("next {}", v.tokens()),
+            FVS::Prev(v) => format!("prev {}", v.tokens()),
+        }
+    }
+    fn depth(&self) -> usize {
+        match self {
+            FVS::C(_) | FVS::V(_) => 0,
+            FVS::Opp(v) | FVS::Plus(_, v) | FVS::TPos(_, v) | FVS::Times(_, v) | FVS::TNeg(_, v) | FVS::Next(v) | FVS::Prev(v) => 1 + v.depth(),
+        }
+    }
+    fn parse<'a>(t: &mut std::slice::Iter<'a, &'a str>) -> Option<FVS> {
+        match *t.next()? {
+            "c" => FV::parse(t).map(FVS::C),
+            "v" => t.next()?.parse().ok().map(FVS::V),
+            "opp" => FVS::parse(t).map(|v| FVS::Opp(Box::new(v))),
+            "next" => FVS::parse(t).map(|v| FVS::Next(Box::new(v))),
+            "prev" => FVS::parse(t).map(|v| FVS::Prev(Box::new(v))),
+            k @ ("plus" | "tpos" | "times" | "tneg") => {
+                let c = FV::parse(t)?;
+                let v = Box::new(FVS::parse(t)?);
+                Some(match k {
+                    "plus" => FVS::Plus(c, v),
+                    "tpos" => FVS::TPos(c, v),
+                    "times" => FVS::Times(c, v),
+                    _ => FVS::TNeg(c, v),
+                })
+            }
+            _ => None,
+        }
+    }
+    fn max_var(&self) -> Option<usize> {
+        match self {
+            FVS::C(_) => None,
+            FVS::V(i) => Some(*i),
+            FVS::Opp(v) | FVS::Plus(_, v) | FVS::TPos(_, v) | FVS::Times(_, v) | FVS::TNeg(_, v) | FVS::Next(v) | FVS::Prev(v) => v.max_var(),
+        }
+    }
+}
+
+/// continuation receiving a concrete view type
+trait VK {
+    type Out;
+    fn call<V: View>(self, v: V) -> Self::Out;
+}
+fn lvl0<K: VK>(s: &FVS, ids: &[VarId], k: K) -> K::Out {
+    match s {
+        FVS::C(c) => k.call(c.val()),
+        FVS::V(i) => k.call(ids[*i]),
+        _ => panic!("view too deep"),
+    }
+}
+macro_rules! flevel {
+    ($name:ident, $inner:ident) => {
+        fn $name<K: VK>(s: &FVS, ids: &[VarId], k: K) -> K::Out {
+            struct OppK<K>(K);
+            impl<K: VK> VK for OppK<K> {
+                type Out = K::Out;
+                fn call<V: View>(self, v: V) -> K::Out { self.0.call(v.opposite()) }
+            }
+            struct PlusK<K>(K, Val);
+            impl<K: VK> VK for PlusK<K> {
+                type Out = K::Out;
+                fn call<V: View>(self, v: V) -> K::Out { self.0.call(v.plus(self.1)) }
+            }
+            struct TPosK<K>(K, Val);
+            impl<K: VK> VK for TPosK<K> {
+                type Out = K::Out;
+                fn call<V: View>(self, v: V) -> K::Out { self.0.call(v.times_pos(self.1)) }
+            }
+            struct TimesK<K>(K, Val);
+            impl<K: VK> VK for TimesK<K> {
+                type Out = K::Out;
+                fn call<V: View>(self, v: V) -> K::Out { self.0.call(v.times(self.1)) }
+            }
+            struct TNegK<K>(K, Val);
+            impl<K: VK> VK for TNegK<K> {
+                type Out = K::Out;
+                fn call<V: View>(self, v: V) -> K::Out { self.0.call(v.times_neg(self.1)) }
+            }
+            struct NextK<K>(K);
+            impl<K: VK> VK for NextK<K> {
+                type Out = K::Out;
+                fn call<V: View>(self, v: V) -> K::Out { self.0.call(v.next()) }
+            }
+            struct PrevK<K>(K);
+            impl<K: VK> VK for PrevK<K> {
+                type Out = K::Out;
+                fn call<V: View>(self, v: V) -> K::Out { self.0.call(v.prev()) }
+            }
+            match s {
+                FVS::C(_) | FVS::V(_) => lvl0(s, ids, k),
+                FVS::Opp(v) => $inner(v, ids, OppK(k)),
+                FVS::Plus(c, v) => $inner(v, ids, PlusK(k, c.val())),
+                FVS::TPos(c, v) => $inner(v, ids, TPosK(k, c.val())),
+                FVS::Times(c, v) => $inner(v, ids, TimesK(k, c.val())),
+                FVS::TNeg(c, v) => $inner(v, ids, TNegK(k, c.val())),
+                FVS::Next(v) => $inner(v, ids, NextK(k)),
+                FVS::Prev(v) => $inner(v, ids, PrevK(k)),
+            }
+        }
+    };
+}
+flevel!(lvl1, lvl0);
+flevel!(lvl2, lvl1);
+
+// ---------------------------------------------------------------------------------------------
+// the case state
+// ---------------------------------------------------------------------------------------------
+#[derive(Clone, Debug, PartialEq)]
+pub enum VState {
+    F(f64, f64, f64),
+    I(Vec<i32>),
+}
+
+pub struct FCase {
+    fi: FloatInterval,
+    vars: Vars,
+    ids: Vec<VarId>,
+    /// a point that later `fl.prune` rows are built around (oracle side only)
+    witness: Option<Vec<FV>>,
+}
+
+impl FCase {
+    pub fn new() -> Self {
+        FCase { fi: FloatInterval::with_step_unchecked(0.0, 0.0, 1.0), vars: Vars::new(), ids: vec![], witness: None }
+    }
+    fn state(&self, i: usize) -> VState {
+        match &self.vars[self.ids[i]] {
+            Var::VarF(iv) => VState::F(iv.min, iv.max, iv.step),
+            Var::VarI(s) => {
+                let mut v = s.to_vec();
+                v.sort();
+                VState::I(v)
+            }
+        }
+    }
+    fn states(&self) -> Vec<VState> {
+        (0..self.ids.len()).map(|i| self.state(i)).collect()
+    }
+    fn show_states(&self) -> String {
+        self.states()
+            .iter()
+            .map(|s| match s {
+                VState::F(a, b, c) => format!("f:{}:{}:{}", sf(*a), sf(*b), sf(*c)),
+                VState::I(v) => format!("i:{}", crate::out::show_ints(v)),
+            })
+            .collect::<Vec<_>>()
+            .join("|")
+    }
+    fn show_ev(&self, ev: &[VarId]) -> String {
+        let e: Vec<String> = ev.iter().map(|e| self.ids.iter().position(|i| i == e).unwrap().to_string()).collect();
+        format!("ev=[{}]", e.join(","))
+    }
+}
+
+fn show_fi(iv: &FloatInterval) -> String {
+    format!("fi {} {} {}", sf(iv.min), sf(iv.max), sf(iv.step))
+}
+
+fn valid_iv(min: f64, max: f64, step: f64) -> bool {
+    min.is_finite() && max.is_finite() && step.is_finite() && step > 0.0 && min <= max
+}
+
+// ---------------------------------------------------------------------------------------------
+// self test
+// ---------------------------------------------------------------------------------------------
+fn selftest() -> String {
+    use std::hint::black_box as bb;
+    let f = |b: u64| bb(f64::from_bits(b));
+    let a = f(4591870180066957722); // 0.1
+    let b = f(4596373779694328218); // 0.2
+    let c = f(4599075939470750515); // 0.3
+    let big = f(4845873199050653696); // 2^60
+    let nan = bb(f64::NAN);
+    let inf = bb(f64::INFINITY);
+    let xs: Vec<f64> = vec![
+        a + b, a * b, a / c, a - c, (a * b) + c, (a * c) - b, a * a + a * a,
+        bb(2.5f64).floor(), bb(-2.5f64).floor(), bb(2.5f64).ceil(), bb(-2.5f64).ceil(),
+        bb(2.5f64).round(), bb(-2.5f64).round(), bb(0.5f64).round(), bb(-0.5f64).round(), bb(1.5f64).round(),
+        f(4602678819172646911).round(), f(4841369599423283200).round(),
+        bb(-0.0f64).abs(), (-a).abs(), -bb(0.0f64),
+        a.max(nan), nan.max(a), a.min(nan), nan.min(b), a.max(b), a.min(b),
+        UlpUtils::ulp(bb(1.0)), UlpUtils::ulp(bb(0.0)), UlpUtils::ulp(bb(-1.0)), UlpUtils::ulp(big), UlpUtils::ulp(a), UlpUtils::ulp(inf),
+        UlpUtils::next_float(bb(1.0)), UlpUtils::next_float(bb(0.0)), UlpUtils::next_float(bb(-0.0)), UlpUtils::next_float(bb(-1.0)), UlpUtils::next_float(-inf),
+        UlpUtils::prev_float(bb(1.0)), UlpUtils::prev_float(bb(0.0)), UlpUtils::prev_float(bb(-0.0)), UlpUtils::prev_float(bb(-1.0)), UlpUtils::prev_float(inf),
+        1e-4, 1e-5, 1e-6, 1e-9, 1e-12, 0.00000095367432, 0.00000000093132257,
+        0.03125, 0.0009765625, 0.00048828125,
+        i32::MIN as f64, i32::MAX as f64, 3.0 * a, a / 2.0,
+        (a / bb(1e-6)).ceil() * 1e-6, (c / bb(1e-6)).floor() * 1e-6, f(4636737291354636288).abs() * 1e-5,
+        big / 512.0, inf - inf, bb(0.0f64) / bb(0.0f64),
+    ];
+    let is: Vec<i32> = vec![
+        bb(2.7f64) as i32, bb(-2.7f64) as i32, bb(1e30f64) as i32, bb(-1e30f64) as i32, nan as i32, inf as i32, (-inf) as i32,
+        bb(2147483647.5f64) as i32, bb(-0.0f64) as i32,
+    ];
+    let us: Vec<usize> = vec![
+        bb(2.7f64) as usize, bb(-2.7f64) as usize, bb(1e30f64) as usize, nan as usize, inf as usize, (-inf) as usize, bb(1e15f64) as usize,
+    ];
+    let bs: Vec<bool> = vec![
+        a < nan, nan <= nan, bb(0.0f64) == bb(-0.0f64), nan == nan, inf > big, inf.is_infinite(), (-inf).is_infinite(), nan.is_infinite(),
+        nan.is_finite(), big.is_finite(), nan.is_nan(), inf.is_nan(),
+    ];
+    format!(
+        "{} | {} | {} | {}",
+        xs.iter().map(|x| sf(*x)).collect::<Vec<_>>().join(" "),
+        is.iter().map(|x| x.to_string()).collect::<Vec<_>>().join(" "),
+        us.iter().map(|x| x.to_string()).collect::<Vec<_>>().join(" "),
+        bs.iter().map(|x| crate::out::b(*x)).collect::<Vec<_>>().join(" ")
+    )
+}
+
+// ---------------------------------------------------------------------------------------------
+// propagator specs
+// ---------------------------------------------------------------------------------------------
+#[derive(Clone, Debug)]
+pub enum FK {
+    Leq(FVS, FVS),
+    Eq(FVS, FVS),
+    Lt(FVS, FVS),
+    /// kind 0..5 = lineq, linle, linne, lineqr, linler, linner
+    Lin(u8, Vec<f64>, Vec<usize>, f64, Option<usize>),
+}
+const LIN_NAMES: [&str; 6] = ["lineq", "linle", "linne", "lineqr", "linler", "linner"];
+impl FK {
+    pub fn tokens(&self) -> String {
+        match self {
+            FK::Leq(x, y) => format!("leq {} {}", x.tokens(), y.tokens()),
+            FK::Eq(x, y) => format!("eq {} {}", x.tokens(), y.tokens()),
+            FK::Lt(x, y) => format!("lt {} {}", x.tokens(), y.tokens()),
+            FK::Lin(k, cs, xs, c, b) => {
+                let mut s = format!(
+                    "{} {} {} {} {}",
+                    LIN_NAMES[*k as usize],
+                    xs.len(),
+                    cs.iter().map(|c| sf(*c)).collect::<Vec<_>>().join(" "),
+                    xs.iter().map(|x| x.to_string()).collect::<Vec<_>>().join(" "),
+                    sf(*c)
+                );
+                if let Some(b) = b {
+                    s.push_str(&format!(" {b}"));
+                }
+                s
+            }
+        }
+    }
+    fn name(&self) -> &'static str {
+        match self {
+            FK::Leq(..) => "leq",
+            FK::Eq(..) => "eq",
+            FK::Lt(..) => "lt",
+            FK::Lin(k, ..) => LIN_NAMES[*k as usize],
+        }
+    }
+    fn parse(ws: &[&str]) -> Option<FK> {
+        let mut t = ws.iter();
+        let kind = *t.next()?;
+        match kind {
+            "leq" | "eq" | "lt" => {
+                let x = FVS::parse(&mut t)?;
+                let y = FVS::parse(&mut t)?;
+                Some(match kind {
+                    "leq" => FK::Leq(x, y),
+                    "eq" => FK::Eq(x, y),
+                    _ => FK::Lt(x, y),
+                })
+            }
+            _ => {
+                let k = LIN_NAMES.iter().position(|n| *n == kind)? as u8;
+                let n: usize = t.next()?.parse().ok()?;
+                let mut cs = vec![];
+                for _ in 0..n {
+                    cs.push(pf(t.next()?)?);
+                }
+                let mut xs = vec![];
+                for _ in 0..n {
+                    xs.push(t.next()?.parse().ok()?);
+                }
+                let c = pf(t.next()?)?;
+                let b = if k >= 3 { Some(t.next()?.parse().ok()?) } else { None };
+                Some(FK::Lin(k, cs, xs, c, b))
+            }
+        }
+    }
+    fn max_var(&self) -> Option<usize> {
+        match self {
+            FK::Leq(x, y) | FK::Eq(x, y) | FK::Lt(x, y) => x.max_var().max(y.max_var()),
+            FK::Lin(_, _, xs, _, b) => xs.iter().cloned().chain(*b).max(),
+        }
+    }
+    fn post(&self, props: &mut Propagators, ids: &[VarId]) -> PropId {
+        struct Bin<'a> { props: &'a mut Propagators, ids: &'a [VarId], y: &'a FVS, kind: u8 }
+        impl<'a> VK for Bin<'a> {
+            type Out = PropId;
+            fn call<V: View>(self, x: V) -> PropId {
+                struct Bin2<'a, X: View> { props: &'a mut Propagators, x: X, kind: u8 }
+                impl<'a, X: View> VK for Bin2<'a, X> {
+                    type Out = PropId;
+                    fn call<Y: View>(self, y: Y) -> PropId {
+                        match self.kind {
+                            0 => self.props.less_than_or_equals(self.x, y),
+                            1 => self.props.equals(self.x, y),
+                            _ => self.props.less_than(self.x, y),
+                        }
+                    }
+                }
+                lvl1(self.y, self.ids, Bin2 { props: self.props, x, kind: self.kind })
+            }
+        }
+        match self {
+            FK::Leq(x, y) => lvl1(x, ids, Bin { props, ids, y, kind: 0 }),
+            FK::Eq(x, y) => lvl1(x, ids, Bin { props, ids, y, kind: 1 }),
+            FK::Lt(x, y) => lvl1(x, ids, Bin { props, ids, y, kind: 2 }),
+            FK::Lin(k, cs, xs, c, b) => {
+                let vs: Vec<VarId> = xs.iter().map(|x| ids[*x]).collect();
+                match k {
+                    0 => props.float_lin_eq(cs.clone(), vs, *c),
+                    1 => props.float_lin_le(cs.clone(), vs, *c),
+                    2 => props.float_lin_ne(cs.clone(), vs, *c),
+                    3 => props.float_lin_eq_reif(cs.clone(), vs, *c, ids[b.unwrap()]),
+                    4 => props.float_lin_le_reif(cs.clone(), vs, *c, ids[b.unwrap()]),
+                    _ => props.float_lin_ne_reif(cs.clone(), vs, *c, ids[b.unwrap()]),
+                }
+            }
+        }
+    }
+}
+
+// ---------------------------------------------------------------------------------------------
+// applying one protocol line to the real code (+ oracles)
+// ---------------------------------------------------------------------------------------------
+
+/// never-widen check shared by `fl.ctx.*` and `fl.prune`
+fn check_never_widens(out: &mut Out, l: usize, what: &str, before: &[VState], after: &[VState]) {
+    for (i, (b, a)) in before.iter().zip(after).enumerate() {
+        match (b, a) {
+            (VState::F(bl, bh, bs), VState::F(al, ah, as_)) => {
+                if !valid_iv(*bl, *bh, *bs) {
+                    continue;
+                }
+                if al < bl || ah > bh || as_.to_bits() != bs.to_bits() {
+                    out.fail(l, "C12", "-", format!("{what}: float variable {i} widened: [{bl:e},{bh:e}] -> [{al:e},{ah:e}]"));
+                }
+            }
+            (VState::I(bv), VState::I(av)) => {
+                if !av.iter().all(|v| bv.contains(v)) {
+                    out.fail(l, "C12", "-", format!("{what}: integer variable {i} grew: {bv:?} -> {av:?}"));
+                }
+            }
+            _ => out.fail(l, "C12", "-", format!("{what}: variable {i} changed its kind")),
+        }
+    }
+}
+
+fn events_vs_changes(out: &mut Out, l: usize, what: &str, fc: &FCase, before: &[VState], after: &[VState], ev: &[VarId]) {
+    for i in 0..before.len() {
+        let changed = before[i] != after[i] && {
+            // bit-level comparison for floats (PartialEq on f64 treats 0.0 == -0.0)
+            match (&before[i], &after[i]) {
+                (VState::F(a, b, _), VState::F(c, d, _)) => a.to_bits() != c.to_bits() || b.to_bits() != d.to_bits(),
+                _ => true,
+            }
+        };
+        let evd = ev.contains(&fc.ids[i]);
+        if changed && !evd {
+            out.fail(l, "C12", "-", format!("{what}: variable {i} changed without an event"));
+        }
+        if evd && !changed {
+            out.stat("ev.without-change");
+        }
+    }
+}
+
+/// C12 float oracle for a plain float variable and a bound `m` (exact arithmetic)
+fn oracle_ctx_float(out: &mut Out, l: usize, is_min: bool, old: (f64, f64, f64), m: f64, int_bound: bool, res: Option<(f64, f64)>) {
+    let (lo, hi, step) = old;
+    if !valid_iv(lo, hi, step) || !m.is_finite() {
+        return;
+    }
+    let (elo, ehi, es, em) = (exf(lo), exf(hi), exf(step), exf(m));
+    let what = format!("try_set_{} {m:e} on [{lo:e},{hi:e}] step {step:e}", if is_min { "min" } else { "max" });
+    let tag_inv = if int_bound { "float-int-bound-inverts-interval" } else { "-" };
+    // the value that must survive: w = max(lo, m + step) (min) / min(hi, m - step) (max), if inside
+    let (w, w_exists) = if is_min {
+        let w = elo.max(&em.add(&es));
+        let e = w.le(&ehi);
+        (w, e)
+    } else {
+        let t = em.sub(&es);
+        let w = if ehi.lt(&t) { ehi.clone() } else { t };
+        let e = w.ge(&elo);
+        (w, e)
+    };
+    match res {
+        None => {
+            out.stat("ctx.f.fail");
+            if w_exists {
+                out.fail(l, "C12", "-", format!("{what}: failed although the value {:e} lies in the interval one step inside the bound", w.approx()));
+            }
+        }
+        Some((nlo, nhi)) => {
+            if nlo > nhi {
+                out.fail(l, "C12", tag_inv, format!("{what}: succeeded with the inverted interval [{nlo:e},{nhi:e}]"));
+            }
+            if w_exists {
+                let kept = exf(nlo).le(&w) && w.le(&exf(nhi));
+                if !kept {
+                    out.fail(l, "C12", "-", format!("{what}: removed {:e} (more than one step inside the bound), new interval [{nlo:e},{nhi:e}]", w.approx()));
+                }
+            }
+        }
+    }
+}
+
+/// which branch of the (VarF, ValF) arms a call takes (statistics only; mirrors the conditions)
+fn branch_stat(out: &mut Out, is_min: bool, old: (f64, f64, f64), m: f64) {
+    let (lo, hi, step) = old;
+    let tol = step / 2.0;
+    if is_min {
+        let pt = (3.0 * step).max(hi.abs() * 1e-5);
+        let k = if (hi - lo).abs() < tol && (m - lo).abs() < pt {
+            "fixed-close"
+        } else if m > hi + tol {
+            if (m - hi) > pt { "fail-gap" } else { "above-max-tolerated" }
+        } else if m > lo + tol {
+            if (m / step).ceil() * step > hi { "tighten-clamped" } else { "tighten" }
+        } else {
+            "nochange"
+        };
+        out.stat(&format!("branch.min.{k}"));
+    } else {
+        let pt = (3.0 * step).max(lo.abs() * 1e-5);
+        let k = if (hi - lo).abs() < tol && (m - hi).abs() < pt {
+            "fixed-close"
+        } else if m < lo {
+            let d = lo - m;
+            if d <= step { "quantization-mismatch" } else if d > pt { "fail-gap" } else { "below-min-tolerated" }
+        } else if m < hi - tol {
+            if (m / step).floor() * step < lo { "tighten-clamped" } else { "tighten" }
+        } else {
+            "nochange"
+        };
+        out.stat(&format!("branch.max.{k}"));
+    }
+    if step < UlpUtils::ulp(m) {
+        out.stat("branch.step-below-ulp");
+    }
+}
+
+fn apply_ctx(fc: &mut FCase, out: &mut Out, line: &str, is_min: bool, v: &FVS, m: FV) {
+    struct K<'a> { vars: &'a mut Vars, is_min: bool, m: Val }
+    impl<'a> VK for K<'a> {
+        type Out = (Option<Val>, Vec<VarId>);
+        fn call<V: View>(self, v: V) -> Self::Out {
+            let mut events = Vec::new();
+            let r = {
+                let mut ctx = Context::verif_new(self.vars, &mut events);
+                if self.is_min { v.try_set_min(self.m, &mut ctx) } else { v.try_set_max(self.m, &mut ctx) }
+            };
+            (r, events)
+        }
+    }
+    let before = fc.states();
+    let ids = fc.ids.clone();
+    let r = guarded(|| lvl2(v, &ids, K { vars: &mut fc.vars, is_min, m: m.val() }));
+    let Some((res, events)) = r else {
+        let l = out.emit(line, "panic");
+        out.fail(l, "C17", "-", format!("panic in {line}"));
+        return;
+    };
+    let after = fc.states();
+    let shown = match &res {
+        None => "none".to_string(),
+        Some(ret) => format!("some ret={} {} {}", FV::show(*ret), fc.show_states(), fc.show_ev(&events)),
+    };
+    let l = out.emit(line, shown);
+    out.stat(&format!("ctx.depth{}", v.depth()));
+    if res.is_some() {
+        check_never_widens(out, l, line, &before, &after);
+        events_vs_changes(out, l, line, fc, &before, &after, &events);
+    }
+    // C12 oracle: plain variable
+    if let FVS::V(x) = v {
+        match (&before[*x], m) {
+            (VState::F(lo, hi, st), FV::F(mf)) => {
+                out.stat("ctx.arm.FF");
+                branch_stat(out, is_min, (*lo, *hi, *st), mf);
+                let r = res.map(|_| match &after[*x] { VState::F(a, b, _) => (*a, *b), _ => unreachable!() });
+                oracle_ctx_float(out, l, is_min, (*lo, *hi, *st), mf, false, r);
+            }
+            (VState::F(lo, hi, st), FV::I(mi)) => {
+                out.stat("ctx.arm.FI");
+                let r = res.map(|_| match &after[*x] { VState::F(a, b, _) => (*a, *b), _ => unreachable!() });
+                oracle_ctx_float(out, l, is_min, (*lo, *hi, *st), mi as f64, true, r);
+            }
+            (VState::I(d), FV::F(mf)) => {
+                out.stat("ctx.arm.IF");
+                if mf.is_finite() && !d.is_empty() {
+                    // exact integer semantics: keep exactly the values >= m (<= m)
+                    let keep: Vec<i32> = d.iter().cloned().filter(|w| if is_min { (*w as f64) >= mf } else { (*w as f64) <= mf }).collect();
+                    match &res {
+                        None => {
+                            if !keep.is_empty() {
+                                out.fail(l, "C12", "-", format!("{line}: failed although {keep:?} satisfy the bound"));
+                            }
+                        }
+                        Some(_) => {
+                            if after[*x] != VState::I(keep.clone()) {
+                                out.fail(l, "C12", "-", format!("{line}: left {:?}, exactly {keep:?} satisfy the bound", after[*x]));
+                            }
+                        }
+                    }
+                }
+            }
+            (VState::I(_), FV::I(_)) => out.stat("ctx.arm.II"),
+        }
+    }
+}
+
+fn apply_mm(fc: &mut FCase, out: &mut Out, line: &str, v: &FVS) {
+    struct K<'a> { vars: &'a mut Vars }
+    impl<'a> VK for K<'a> {
+        type Out = (Val, Val, bool);
+        fn call<V: View>(self, v: V) -> Self::Out {
+            let mut events = Vec::new();
+            let ctx = Context::verif_new(self.vars, &mut events);
+            (v.min(&ctx), v.max(&ctx), v.result_type(&ctx) == selen::variables::views::ViewType::Float)
+        }
+    }
+    let ids = fc.ids.clone();
+    match guarded(|| lvl2(v, &ids, K { vars: &mut fc.vars })) {
+        None => {
+            let l = out.emit(line, "panic");
+            out.fail(l, "C17", "-", format!("panic in {line}"));
+        }
+        Some((a, b, f)) => {
+            out.emit(line, format!("min={} max={} float={}", FV::show(a), FV::show(b), crate::out::b(f)));
+        }
+    }
+}
+
+/// exact check: is `a` inside every variable's domain
+fn witness_inside(states: &[VState], a: &[FV]) -> Option<usize> {
+    for (i, (s, w)) in states.iter().zip(a).enumerate() {
+        let ok = match (s, w) {
+            (VState::F(lo, hi, _), w) => *lo <= w.as_f64() && w.as_f64() <= *hi,
+            (VState::I(d), FV::I(w)) => d.contains(w),
+            (VState::I(_), FV::F(_)) => false,
+        };
+        if !ok {
+            return Some(i);
+        }
+    }
+    None
+}
+
+/// for a linear row: exact slack `C - sum c_i a_i` and the margin the oracle demands
+fn row_slack(cs: &[f64], xs: &[usize], c: f64, a: &[FV], states: &[VState]) -> Option<(Ex, Ex)> {
+    if !c.is_finite() || cs.iter().any(|c| !c.is_finite()) {
+        return None;
+    }
+    let mut sum = Ex::zero();
+    let mut sum_abs_c = Ex::zero();
+    let mut mag = Ex::zero();
+    let mut step_max = Ex::zero();
+    for (ci, xi) in cs.iter().zip(xs) {
+        let ai = exf(a.get(*xi)?.as_f64());
+        sum = sum.add(&exf(*ci).mul(&ai));
+        sum_abs_c = sum_abs_c.add(&exf(*ci).abs());
+        match &states[*xi] {
+            VState::F(lo, hi, st) => {
+                if !valid_iv(*lo, *hi, *st) {
+                    return None;
+                }
+                step_max = step_max.max(&exf(*st));
+                mag = mag.add(&exf(*ci).abs().mul(&exf(lo.abs().max(hi.abs()))));
+            }
+            VState::I(d) => {
+                let m = d.iter().map(|v| v.unsigned_abs()).max().unwrap_or(0);
+                mag = mag.add(&exf(*ci).abs().mul(&Ex::from_i64(m as i64)));
+            }
+        }
+    }
+    mag = mag.add(&exf(c).abs());
+    // demanded margin: 4 * step_max * sum|c|  +  2^-40 * (sum |c_i| * max|bound_i| + |C|)
+    let margin = step_max.mul(&sum_abs_c).scale2(2).add(&mag.scale2(-40));
+    Some((exf(c).sub(&sum), margin))
+}
+
+fn apply_prune(fc: &mut FCase, out: &mut Out, line: &str, k: &FK) {
+    let before = fc.states();
+    let ids = fc.ids.clone();
+    let r = guarded(|| {
+        let mut props = Propagators::default();
+        for _ in &ids {
+            props.on_new_var();
+        }
+        let p = k.post(&mut props, &ids);
+        let mut events = Vec::new();
+        let res = {
+            let mut ctx = Context::verif_new(&mut fc.vars, &mut events);
+            props.get_state(p).as_ref().prune(&mut ctx)
+        };
+        res.map(|_| events)
+    });
+    let Some(res) = r else {
+        let l = out.emit(line, "panic");
+        out.fail(l, "C17", "-", format!("panic in {line}"));
+        return;
+    };
+    let after = fc.states();
+    let shown = match &res {
+        None => "none".to_string(),
+        Some(ev) => format!("some {} {}", fc.show_states(), fc.show_ev(ev)),
+    };
+    let l = out.emit(line, shown);
+    out.stat(&format!("prune.{}", k.name()));
+    out.stat(if res.is_none() { "prune.result.fail" } else if before != after { "prune.result.changed" } else { "prune.result.fixpoint" });
+    if let Some(ev) = &res {
+        check_never_widens(out, l, line, &before, &after);
+        events_vs_changes(out, l, line, fc, &before, &after, ev);
+    }
+    // C07 oracle: the witness point survives rows it satisfies with margin
+    let Some(a) = fc.witness.clone() else { return };
+    if a.len() != before.len() || witness_inside(&before, &a).is_some() {
+        return;
+    }
+    if let FK::Lin(kind @ (0 | 1), cs, xs, c, None) = k {
+        let Some((slack, margin)) = row_slack(cs, xs, *c, &a, &before) else { return };
+        let applies = if *kind == 1 { slack.ge(&margin) } else { slack.is_zero() && on_grid(&a, xs, &before) };
+        if !applies {
+            out.stat("prune.oracle.witness-not-applicable");
+            return;
+        }
+        out.stat(if *kind == 1 { "prune.oracle.le-margin" } else { "prune.oracle.eq-exact" });
+        match &res {
+            None => out.fail(l, "C07", "-", format!("{line}: failed although the witness {a:?} satisfies the row with slack {:e} (demanded margin {:e})", slack.approx(), margin.approx())),
+            Some(_) => {
+                if let Some(i) = witness_inside(&after, &a) {
+                    out.fail(l, "C07", "-", format!("{line}: witness value {:?} of variable {i} removed (slack {:e}, demanded margin {:e}); {:?} -> {:?}", a[i], slack.approx(), margin.approx(), before[i], after[i]));
+                }
+            }
+        }
+    }
+}
+
+/// every float coordinate of the witness used by the row is an exact multiple of a dyadic step
+fn on_grid(a: &[FV], xs: &[usize], states: &[VState]) -> bool {
+    xs.iter().all(|x| match (&states[*x], a[*x]) {
+        (VState::F(_, _, st), FV::F(w)) => {
+            let q = w / st;
+            // dyadic step: the quotient is exact; demand an integer
+            st.to_bits() & ((1u64 << 52) - 1) == 0 && q.fract() == 0.0 && q.abs() < 9.0e15
+        }
+        (VState::I(_), FV::I(_)) => true,
+        _ => false,
+    })
+}
+
+/// FloatInterval primitive ops: result line + oracle (inside the interval, monotone)
+fn apply_fi(fc: &mut FCase, out: &mut Out, line: &str, ws: &[&str]) {
+    let iv = fc.fi.clone();
+    let valid = valid_iv(iv.min, iv.max, iv.step);
+    let arg = |i: usize| ws.get(i).and_then(|s| pf(s));
+    let inside = |x: f64| iv.min <= x && x <= iv.max;
+    match ws[0] {
+        "fl.fi.new" | "fl.fi.step" | "fl.fi.raw" => {
+            let (Some(lo), Some(hi)) = (arg(1), arg(2)) else { out.emit(line, "bad-op"); return };
+            let r = match ws[0] {
+                "fl.fi.new" => FloatInterval::new(lo, hi),
+                "fl.fi.step" => FloatInterval::with_step(lo, hi, arg(3).unwrap_or(1.0)),
+                _ => FloatInterval::with_step_unchecked(lo, hi, arg(3).unwrap_or(1.0)),
+            };
+            fc.fi = r.clone();
+            out.emit(line, show_fi(&r));
+            out.stat(ws[0]);
+        }
+        "fl.fi.isect" => {
+            let (Some(lo), Some(hi), Some(s)) = (arg(1), arg(2), arg(3)) else { out.emit(line, "bad-op"); return };
+            let o = FloatInterval::with_step_unchecked(lo, hi, s);
+            let r = iv.intersect(&o);
+            let l = out.emit(line, format!("{} {}", show_fi(&r), crate::out::b(iv.intersects(&o))));
+            if valid && valid_iv(lo, hi, s) && (r.min < iv.min || r.max > iv.max || r.min < lo || r.max > hi) {
+                out.fail(l, "C12", "-", format!("{line}: intersection not inside both operands"));
+            }
+        }
+        "fl.fi.mid" => {
+            let r = guarded(|| iv.mid());
+            let l = out.emit(line, r.map(sf).unwrap_or("panic".into()));
+            out.stat("fl.fi.mid");
+            match r {
+                None => { if valid { out.fail(l, "C17", "-", format!("mid panicked on a valid interval {iv:?}")); } }
+                Some(m) => { if valid && !inside(m) { out.fail(l, "C12", "-", format!("mid {m:e} outside {iv:?}")); } }
+            }
+        }
+        "fl.fi.q" => {
+            let r = match ws.get(1).copied() {
+                Some("fixed") => crate::out::b(iv.is_fixed()).to_string(),
+                Some("empty") => crate::out::b(iv.is_empty()).to_string(),
+                Some("steps") => iv.step_count().to_string(),
+                Some("size") => sf(iv.size()),
+                Some("contains") => match arg(2) { Some(x) => crate::out::b(iv.contains(x)).to_string(), None => "bad-op".into() },
+                _ => "bad-op".into(),
+            };
+            let l = out.emit(line, r.clone());
+            if valid && ws.get(1) == Some(&"contains") {
+                if let Some(x) = arg(2) {
+                    if inside(x) && r != "1" {
+                        out.fail(l, "C12", "-", format!("contains({x:e}) false for a point inside {iv:?}"));
+                    }
+                }
+            }
+        }
+        "fl.fi.next" | "fl.fi.prev" | "fl.fi.round" | "fl.fi.floor" | "fl.fi.ceil" => {
+            let Some(x) = arg(1) else { out.emit(line, "bad-op"); return };
+            let f = |x: f64| -> Option<f64> {
+                guarded(|| match ws[0] {
+                    "fl.fi.next" => iv.next(x),
+                    "fl.fi.prev" => iv.prev(x),
+                    "fl.fi.round" => iv.round_to_step(x),
+                    "fl.fi.floor" => iv.floor_to_step(x),
+                    _ => iv.ceil_to_step(x),
+                })
+            };
+            let r = f(x);
+            let l = out.emit(line, r.map(sf).unwrap_or("panic".into()));
+            out.stat(ws[0]);
+            if !valid || !x.is_finite() {
+                return;
+            }
+            let Some(r) = r else { out.fail(l, "C17", "-", format!("{line}: panic on a valid interval {iv:?}")); return };
+            let step_path = !(iv.step < UlpUtils::ulp(x));
+            out.stat(if step_path { "fi.step-path" } else { "fi.ulp-path" });
+            let is_np = ws[0] == "fl.fi.next" || ws[0] == "fl.fi.prev";
+            if (!is_np || inside(x)) && !inside(r) {
+                out.fail(l, "C12", "-", format!("{line}: result {r:e} outside {iv:?}"));
+            }
+            if ws[0] == "fl.fi.next" && inside(x) && r < x {
+                out.fail(l, "C12", "-", format!("{line}: next({x:e}) = {r:e} is smaller"));
+            }
+            if ws[0] == "fl.fi.prev" && inside(x) && r > x {
+                out.fail(l, "C12", "-", format!("{line}: prev({x:e}) = {r:e} is larger"));
+            }
+            // monotone: compare with neighbours of x (deterministic function of the line)
+            for x2 in [UlpUtils::next_float(x), x + iv.step / 3.0, x + iv.step, x + 2.5 * iv.step, iv.max, x.abs() * 2.0 + 1.0] {
+                if !x2.is_finite() || x2 < x || (is_np && !(inside(x) && inside(x2))) {
+                    continue;
+                }
+                if let Some(r2) = f(x2) {
+                    if r2 < r {
+                        out.fail(l, "C12", "-", format!("{line}: not monotone: f({x:e}) = {r:e} > f({x2:e}) = {r2:e} on {iv:?}"));
+                        break;
+                    }
+                }
+            }
+        }
+        "fl.fi.below" | "fl.fi.above" | "fl.fi.assign" => {
+            let Some(x) = arg(1) else { out.emit(line, "bad-op"); return };
+            let mut w = iv.clone();
+            let r = guarded(|| {
+                match ws[0] {
+                    "fl.fi.below" => w.remove_below(x),
+                    "fl.fi.above" => w.remove_above(x),
+                    _ => w.assign(x),
+                }
+                w
+            });
+            out.stat(ws[0]);
+            match r {
+                None => {
+                    let l = out.emit(line, "panic");
+                    if valid && x.is_finite() {
+                        out.fail(l, "C17", "-", format!("{line}: panic on a valid interval {iv:?}"));
+                    }
+                }
+                Some(w) => {
+                    fc.fi = w.clone();
+                    let l = out.emit(line, show_fi(&w));
+                    if !valid || !x.is_finite() {
+                        return;
+                    }
+                    if w.is_empty() {
+                        out.stat("fi.made-empty");
+                        // emptied: only allowed when no value one step inside the threshold exists
+                        let (es, ex) = (exf(iv.step), exf(x));
+                        let survivor_exists = match ws[0] {
+                            "fl.fi.below" => exf(iv.max).ge(&ex.add(&es)),
+                            "fl.fi.above" => exf(iv.min).le(&ex.sub(&es)),
+                            _ => true,
+                        };
+                        if survivor_exists {
+                            out.fail(l, "C12", "-", format!("{line}: interval {iv:?} emptied although values one step inside the threshold exist"));
+                        }
+                        return;
+                    }
+                    if w.min < iv.min || w.max > iv.max {
+                        out.fail(l, "C12", "-", format!("{line}: {iv:?} widened to {w:?}"));
+                    }
+                    let (es, ex) = (exf(iv.step), exf(x));
+                    // excess over "one step" of at most 4 ulps of the largest magnitude involved is
+                    // IEEE rounding of `min + k*step` (known finding `fi-grid-rounding-ulp`)
+                    let ulp_mag = UlpUtils::ulp(iv.min.abs().max(iv.max.abs()).max(x.abs()));
+                    if ws[0] == "fl.fi.below" {
+                        let wv = exf(iv.min).max(&ex.add(&es));
+                        if wv.le(&exf(iv.max)) && exf(w.min).gt(&wv) {
+                            let tag = if exf(w.min).sub(&wv).le(&exf(4.0 * ulp_mag)) { "fi-grid-rounding-ulp" } else { "-" };
+                            out.fail(l, "C12", tag, format!("{line}: removed {:e}, more than one step above the threshold ({iv:?} -> {w:?})", wv.approx()));
+                        }
+                    }
+                    if ws[0] == "fl.fi.above" {
+                        let t = ex.sub(&es);
+                        let wv = if exf(iv.max).lt(&t) { exf(iv.max) } else { t };
+                        if wv.ge(&exf(iv.min)) && exf(w.max).lt(&wv) {
+                            let tag = if wv.sub(&exf(w.max)).le(&exf(4.0 * ulp_mag)) { "fi-grid-rounding-ulp" } else { "-" };
+                            out.fail(l, "C12", tag, format!("{line}: removed {:e}, more than one step below the threshold ({iv:?} -> {w:?})", wv.approx()));
+                        }
+                    }
+                }
+            }
+        }
+        _ => {
+            out.emit(line, "bad-op");
+        }
+    }
+}
+
+pub fn apply(fc: &mut FCase, out: &mut Out, line: &str) {
+    let ws: Vec<&str> = line.split_whitespace().collect();
+    if ws.is_empty() {
+        return;
+    }
+    match ws[0] {
+        "fl.selftest" => {
+            out.emit(line, selftest());
+        }
+        "fl.var" => match ws.get(1).copied() {
+            Some("f") => {
+                let (Some(lo), Some(hi), Some(st)) = (ws.get(2).and_then(|s| pf(s)), ws.get(3).and_then(|s| pf(s)), ws.get(4).and_then(|s| pf(s))) else {
+                    out.emit(line, "bad-op");
+                    return;
+                };
+                let id = fc.vars.new_var_with_bounds_and_step(Val::ValF(lo), Val::ValF(hi), st);
+                fc.ids.push(id);
+                out.emit(line, format!("var {}", fc.ids.len() - 1));
+                out.stat("var.f");
+            }
+            Some("i") => {
+                let vs: Option<Vec<i32>> = ws[2..].iter().map(|s| s.parse().ok()).collect();
+                match vs {
+                    Some(vs) if !vs.is_empty() => {
+                        let id = fc.vars.new_var_with_values(vs);
+                        fc.ids.push(id);
+                        out.emit(line, format!("var {}", fc.ids.len() - 1));
+                        out.stat("var.i");
+                    }
+                    _ => {
+                        out.emit(line, "bad-op");
+                    }
+                }
+            }
+            _ => {
+                out.emit(line, "bad-op");
+            }
+        },
+        "fl.witness" => {
+            let mut t = ws[1..].iter();
+            let mut a = vec![];
+            while let Some(v) = FV::parse(&mut t) {
+                a.push(v);
+            }
+            fc.witness = Some(a);
+            out.emit(line, "ok");
+        }
+        "fl.ctx.min" | "fl.ctx.max" | "fl.view.mm" => {
+            let mut t = ws[1..].iter();
+            let Some(v) = FVS::parse(&mut t) else { out.emit(line, "bad-op"); return };
+            if v.depth() > 2 || v.max_var().map_or(false, |m| m >= fc.ids.len()) {
+                out.emit(line, "bad-op");
+                return;
+            }
+            if ws[0] == "fl.view.mm" {
+                apply_mm(fc, out, line, &v);
+                return;
+            }
+            let Some(m) = FV::parse(&mut t) else { out.emit(line, "bad-op"); return };
+            apply_ctx(fc, out, line, ws[0] == "fl.ctx.min", &v, m);
+        }
+        "fl.prune" => {
+            let Some(k) = FK::parse(&ws[1..]) else { out.emit(line, "bad-op"); return };
+            if k.max_var().map_or(false, |m| m >= fc.ids.len()) {
+                out.emit(line, "bad-op");
+                return;
+            }
+            apply_prune(fc, out, line, &k);
+        }
+        w if w.starts_with("fl.fi.") => apply_fi(fc, out, line, &ws),
+        _ => {
+            out.emit(line, "bad-op");
+        }
+    }
+}
+
+// ---------------------------------------------------------------------------------------------
+// replay
+// ---------------------------------------------------------------------------------------------
+thread_local! {
+    static REPLAY: RefCell<(usize, Option<FCase>)> = RefCell::new((usize::MAX, None));
+}
 
 /// replay of one protocol line of this suite inside the current case
-pub fn replay_line(_out: &mut Out, _line: &str) {}
+pub fn replay_line(out: &mut Out, line: &str) {
+    // the current case = the last `case` line already emitted
+    let case_idx = out.ops.iter().rposition(|l| l.starts_with("case ")).unwrap_or(0);
+    REPLAY.with(|r| {
+        let mut r = r.borrow_mut();
+        if r.0 != case_idx || r.1.is_none() {
+            *r = (case_idx, Some(FCase::new()));
+        }
+        let fc = r.1.as_mut().unwrap();
+        if line.starts_with("#flapi ") {
+            api_line(out, line);
+        } else {
+            apply(fc, out, line);
+        }
+    });
+}
+
+// ---------------------------------------------------------------------------------------------
+// generators
+// ---------------------------------------------------------------------------------------------
+fn ulps(x: f64, k: i64) -> f64 {
+    let mut v = x;
+    for _ in 0..k.abs() {
+        v = if k > 0 { UlpUtils::next_float(v) } else { UlpUtils::prev_float(v) };
+    }
+    v
+}
+
+fn gen_step(r: &mut Rng) -> f64 {
+    match r.below(10) {
+        0..=3 => (-(r.range(0, 30) as f64)).exp2(),
+        4..=7 => precision_to_step_size(r.range(1, 12) as i32),
+        8 => *r.pick(&[1.0, 32.0, 0.03125, 0.0009765625, 0.00000095367432, 0.00000000093132257]),
+        _ => *r.pick(&[0.1, 0.25, 0.3, 2.0, 0.5]),
+    }
+}
+
+/// a value near the grid of `step`, scaled to a magnitude class
+fn gen_grid_value(r: &mut Rng, step: f64) -> f64 {
+    let k = match r.below(8) {
+        0 => 0,
+        1 => r.range(-3, 3),
+        2..=4 => r.range(-2000, 2000),
+        5 => r.range(-2_000_000, 2_000_000),
+        6 => r.range(-4_000_000_000_000, 4_000_000_000_000), // step may drop below ulp(value)
+        _ => r.range(-40, 40),
+    };
+    let v = k as f64 * step;
+    let v = match r.below(8) {
+        0 => ulps(v, 1),
+        1 => ulps(v, -1),
+        2 => v + step / 2.0,
+        3 => v + step * (r.below(1000) as f64 / 1000.0),
+        _ => v,
+    };
+    if v == 0.0 && r.chance(1, 2) { -0.0 } else { v }
+}
+
+fn gen_interval(r: &mut Rng) -> (f64, f64, f64) {
+    let step = gen_step(r);
+    let a = gen_grid_value(r, step);
+    let b = match r.below(6) {
+        0 => a, // fixed
+        1 => a + step * r.range(0, 3) as f64,
+        2 => a + step * r.range(0, 3000) as f64,
+        _ => gen_grid_value(r, step),
+    };
+    let (lo, hi) = if a <= b { (a, b) } else { (b, a) };
+    (lo, hi, step)
+}
+
+/// a bound that exercises the branches of the float arms around [lo, hi]
+fn gen_bound(r: &mut Rng, lo: f64, hi: f64, step: f64) -> f64 {
+    let base = match r.below(4) {
+        0 => lo,
+        1 => hi,
+        2 => lo + (hi - lo) * (r.below(1001) as f64 / 1000.0),
+        _ => ((lo + (hi - lo) * (r.below(1001) as f64 / 1000.0)) / step).round() * step,
+    };
+    let pt_hi = (3.0 * step).max(hi.abs() * 1e-5);
+    let pt_lo = (3.0 * step).max(lo.abs() * 1e-5);
+    let d = match r.below(14) {
+        0 => 0.0,
+        1 => step / 2.0,
+        2 => -step / 2.0,
+        3 => step,
+        4 => -step,
+        5 => 3.0 * step,
+        6 => -3.0 * step,
+        7 => pt_hi,
+        8 => -pt_lo,
+        9 => step * r.range(-5, 5) as f64 * 0.37,
+        10 => step * r.range(-2000, 2000) as f64,
+        11 => pt_hi * 1.5,
+        12 => -pt_lo * 1.5,
+        _ => step * 0.999,
+    };
+    let v = base + d;
+    match r.below(6) {
+        0 => ulps(v, 1),
+        1 => ulps(v, -1),
+        2 => ulps(v, r.range(-3, 3)),
+        _ => v,
+    }
+}
+
+fn small_fv(r: &mut Rng, step: f64) -> FV {
+    if r.chance(1, 2) {
+        FV::I(r.range(-4, 4) as i32)
+    } else {
+        FV::F(match r.below(4) {
+            0 => r.range(-8, 8) as f64 * 0.5,
+            1 => r.range(-30, 30) as f64 * step,
+            2 => 0.1 * r.range(-20, 20) as f64,
+            _ => r.range(1, 4) as f64,
+        })
+    }
+}
+
+fn gen_view(r: &mut Rng, x: usize, step: f64, depth: usize) -> FVS {
+    if depth == 0 {
+        return FVS::V(x);
+    }
+    let inner = Box::new(gen_view(r, x, step, depth - 1));
+    let nz = |r: &mut Rng, neg: bool| -> FV {
+        if r.chance(1, 2) {
+            let k = r.range(1, 4) as i32;
+            FV::I(if neg { -k } else { k })
+        } else {
+            let k = *r.pick(&[0.5, 2.0, 1.5, 0.1, 3.0, 1.0]);
+            FV::F(if neg { -k } else { k })
+        }
+    };
+    match r.below(8) {
+        0 => FVS::Opp(inner),
+        1 => FVS::Plus(small_fv(r, step), inner),
+        2 => FVS::TPos(nz(r, false), inner),
+        3 => {
+            let s = match r.below(5) {
+                0 => FV::I(0),
+                1 => FV::F(0.0),
+                2 => nz(r, true),
+                _ => nz(r, false),
+            };
+            FVS::Times(s, inner)
+        }
+        4 => FVS::TNeg(nz(r, true), inner),
+        5 => FVS::Next(inner),
+        6 => FVS::Prev(inner),
+        _ => FVS::Plus(FV::F(step * r.range(-3, 3) as f64), inner),
+    }
+}
+
+fn gen_int_dom(r: &mut Rng) -> Vec<i32> {
+    let lo = r.range(-6, 4) as i32;
+    let n = r.range(1, 6) as i32;
+    let mut v: Vec<i32> = (lo..lo + n).filter(|_| r.chance(4, 5)).collect();
+    if v.is_empty() {
+        v.push(lo);
+    }
+    v
+}
+
+fn case_selftest(out: &mut Out) {
+    out.case("selftest");
+    let mut fc = FCase::new();
+    apply(&mut fc, out, "fl.selftest");
+}
+
+fn case_fi(out: &mut Out, r: &mut Rng, id: &str) {
+    out.case(id);
+    let mut fc = FCase::new();
+    let (lo, hi, step) = gen_interval(r);
+    if r.chance(1, 4) {
+        // the step table of `new`
+        let w = *r.pick(&[2.0e6, 20000.0, 1000.0, 100.0, 1.0, 0.01, 0.0001, 16.0, 0.5, 512.0, 16384.0, 1048576.0, 0.00048828125]);
+        let a = gen_grid_value(r, 0.5);
+        let (x, y) = if r.chance(1, 5) { (a + w, a) } else { (a, a + w) };
+        apply(&mut fc, out, &format!("fl.fi.new {} {}", sf(x), sf(y)));
+    } else if r.chance(1, 6) {
+        apply(&mut fc, out, &format!("fl.fi.step {} {} {}", sf(hi), sf(lo), sf(step)));
+    } else {
+        apply(&mut fc, out, &format!("fl.fi.step {} {} {}", sf(lo), sf(hi), sf(step)));
+    }
+    let n = r.range(3, 10);
+    for _ in 0..n {
+        let iv = fc.fi.clone();
+        if iv.is_empty() {
+            break;
+        }
+        let x = gen_bound(r, iv.min, iv.max, iv.step);
+        let line = match r.below(16) {
+            0 => format!("fl.fi.next {}", sf(x)),
+            1 => format!("fl.fi.prev {}", sf(x)),
+            2 => format!("fl.fi.round {}", sf(x)),
+            3 => format!("fl.fi.floor {}", sf(x)),
+            4 => format!("fl.fi.ceil {}", sf(x)),
+            5 => "fl.fi.mid".to_string(),
+            6 => format!("fl.fi.q contains {}", sf(x)),
+            7 => "fl.fi.q fixed".to_string(),
+            8 => "fl.fi.q steps".to_string(),
+            9 => format!("fl.fi.below {}", sf(x)),
+            10 => format!("fl.fi.above {}", sf(x)),
+            11 => "fl.fi.q size".to_string(),
+            12 => {
+                let (a, b, s) = gen_interval(r);
+                // Rust's f64::max/min on zeros of different sign is not modelled: avoid zeros
+                let nz = |v: f64| if v == 0.0 { iv.step } else { v };
+                format!("fl.fi.isect {} {} {}", sf(nz(a)), sf(nz(b).max(nz(a))), sf(s))
+            }
+            13 => format!("fl.fi.next {}", sf(iv.min + (iv.max - iv.min) * (r.below(11) as f64 / 10.0))),
+            14 => format!("fl.fi.prev {}", sf(iv.min + (iv.max - iv.min) * (r.below(11) as f64 / 10.0))),
+            _ => if r.chance(1, 3) { format!("fl.fi.assign {}", sf(x)) } else { "fl.fi.q empty".to_string() },
+        };
+        apply(&mut fc, out, &line);
+    }
+}
+
+fn add_float_var(fc: &mut FCase, out: &mut Out, lo: f64, hi: f64, step: f64) {
+    apply(fc, out, &format!("fl.var f {} {} {}", sf(lo), sf(hi), sf(step)));
+}
+fn add_int_var(fc: &mut FCase, out: &mut Out, d: &[i32]) {
+    apply(fc, out, &format!("fl.var i {}", d.iter().map(|v| v.to_string()).collect::<Vec<_>>().join(" ")));
+}
+
+fn last_failed(out: &Out) -> bool {
+    matches!(out.imp.last().map(|s| s.as_str()), Some("none") | Some("panic"))
+}
+
+fn case_ctx(out: &mut Out, r: &mut Rng, id: &str) {
+    out.case(id);
+    let mut fc = FCase::new();
+    let (lo, hi, step) = gen_interval(r);
+    add_float_var(&mut fc, out, lo, hi, step);
+    let d = gen_int_dom(r);
+    add_int_var(&mut fc, out, &d);
+    let n = r.range(1, 6);
+    for _ in 0..n {
+        let x = if r.chance(4, 5) { 0 } else { 1 };
+        let depth = match r.below(10) { 0..=5 => 0, 6..=8 => 1, _ => 2 };
+        let v = gen_view(r, x, step, depth);
+        let (clo, chi) = match fc.state(0) { VState::F(a, b, _) => (a, b), _ => (lo, hi) };
+        let m = if x == 0 && depth == 0 {
+            if r.chance(1, 6) {
+                let c = if r.chance(1, 2) { clo } else { chi };
+                FV::I((c + r.range(-2, 2) as f64 * 0.6).round().clamp(-1.0e9, 1.0e9) as i32)
+            } else {
+                FV::F(gen_bound(r, clo, chi, step))
+            }
+        } else if x == 1 && depth == 0 {
+            if r.chance(1, 3) { FV::I(r.range(-8, 8) as i32) } else { FV::F(r.range(-16, 16) as f64 * 0.5 + if r.chance(1, 3) { 0.25 } else { 0.0 }) }
+        } else if x == 0 {
+            match r.below(3) {
+                0 => FV::F(gen_bound(r, clo, chi, step)),
+                1 => FV::F(gen_bound(r, clo, chi, step) * *r.pick(&[0.5, 2.0, -1.0, 1.0])),
+                _ => FV::I((clo + (chi - clo) * 0.5).round().clamp(-1.0e9, 1.0e9) as i32 + r.range(-2, 2) as i32),
+            }
+        } else {
+            small_fv(r, 0.5)
+        };
+        if r.chance(1, 3) {
+            apply(&mut fc, out, &format!("fl.view.mm {}", v.tokens()));
+        }
+        let op = if r.chance(1, 2) { "fl.ctx.min" } else { "fl.ctx.max" };
+        apply(&mut fc, out, &format!("{op} {} {}", v.tokens(), m.tokens()));
+        if last_failed(out) {
+            out.stat("case.ended-by-failure");
+            return;
+        }
+    }
+}
+
+/// a store with a witness point and linear rows / comparisons around it
+fn case_prune(out: &mut Out, r: &mut Rng, id: &str) {
+    out.case(id);
+    let mut fc = FCase::new();
+    let nv = r.range(2, 5) as usize;
+    let dyadic = r.chance(1, 2);
+    let common_step = if dyadic { (-(r.range(0, 20) as f64)).exp2() } else { precision_to_step_size(r.range(1, 9) as i32) };
+    let mut wit: Vec<FV> = vec![];
+    let mut steps: Vec<f64> = vec![];
+    for _ in 0..nv {
+        if r.chance(1, 4) {
+            let d = gen_int_dom(r);
+            wit.push(FV::I(*r.pick(&d)));
+            steps.push(0.0);
+            add_int_var(&mut fc, out, &d);
+        } else {
+            let step = if r.chance(3, 4) { common_step } else if dyadic { (-(r.range(0, 20) as f64)).exp2() } else { gen_step(r) };
+            let k = r.range(-3000, 3000);
+            let w = k as f64 * step;
+            let lo = (k - r.range(0, 2000)) as f64 * step;
+            let hi = (k + r.range(0, 2000)) as f64 * step;
+            let (lo, hi) = if r.chance(1, 8) { (w, w) } else { (lo, hi) };
+            wit.push(FV::F(w));
+            steps.push(step);
+            add_float_var(&mut fc, out, lo, hi, step);
+        }
+    }
+    // reification variable
+    let breif = if r.chance(1, 3) {
+        let d = match r.below(3) { 0 => vec![0, 1], 1 => vec![1], _ => vec![0] };
+        wit.push(FV::I(*d.last().unwrap()));
+        add_int_var(&mut fc, out, &d);
+        Some(nv)
+    } else {
+        None
+    };
+    apply(&mut fc, out, &format!("fl.witness {}", wit.iter().map(|w| w.tokens()).collect::<Vec<_>>().join(" ")));
+    let nrows = r.range(1, 4);
+    for _ in 0..nrows {
+        let kind = r.below(12);
+        let line = if kind < 8 || breif.is_none() && kind < 10 {
+            // linear row over a random subset
+            let n = r.range(1, nv as i64) as usize;
+            let mut xs: Vec<usize> = (0..nv).collect();
+            for i in 0..nv {
+                let j = r.range(i as i64, nv as i64 - 1) as usize;
+                xs.swap(i, j);
+            }
+            xs.truncate(n);
+            let cs: Vec<f64> = xs.iter().map(|_| match r.below(8) {
+                0 => 0.0,
+                1 => 1.0,
+                2 => -1.0,
+                3 => r.range(-5, 5) as f64,
+                4 => r.range(-8, 8) as f64 * 0.5,
+                5 => r.range(-30, 30) as f64 * 0.1,
+                6 => 1e-13,
+                _ => r.range(-400, 400) as f64 * 0.25,
+            }).collect();
+            let sum: f64 = cs.iter().zip(&xs).map(|(c, x)| c * wit[*x].as_f64()).sum();
+            let sum_abs: f64 = cs.iter().map(|c| c.abs()).sum();
+            let smax = steps.iter().cloned().fold(0.0, f64::max);
+            let lk = if kind < 8 { *r.pick(&[0u8, 1, 1, 1, 2]) } else { 1 };
+            let c = match lk {
+                1 => match r.below(6) {
+                    0 => sum,                                   // tight
+                    1 => sum + smax * sum_abs * 0.5,            // below the margin
+                    2 => sum - smax * sum_abs * r.range(1, 30) as f64, // violated by the witness
+                    _ => sum + smax * sum_abs * r.range(5, 40) as f64 + sum.abs() * 1e-9,
+                },
+                _ => if r.chance(1, 5) { sum + smax * r.range(-3, 3) as f64 } else { sum },
+            };
+            match (kind, breif) {
+                (8.., Some(b)) | (0..=2, Some(b)) if r.chance(1, 2) => FK::Lin(lk + 3, cs, xs, c, Some(b)).tokens(),
+                _ => FK::Lin(lk, cs, xs, c, None).tokens(),
+            }
+        } else {
+            // comparison between two views
+            let x = r.below(nv as u64) as usize;
+            let y = r.below(nv as u64) as usize;
+            let dx = if r.chance(2, 3) { 0 } else { 1 };
+            let dy = if r.chance(2, 3) { 0 } else { 1 };
+            let vx = gen_view(r, x, common_step, dx);
+            let vy = if r.chance(1, 5) { FVS::C(small_fv(r, common_step)) } else { gen_view(r, y, common_step, dy) };
+            match r.below(3) {
+                0 => FK::Leq(vx, vy).tokens(),
+                1 => FK::Eq(vx, vy).tokens(),
+                _ => FK::Lt(vx, vy).tokens(),
+            }
+        };
+        apply(&mut fc, out, &format!("fl.prune {line}"));
+        if last_failed(out) {
+            out.stat("case.ended-by-failure");
+            return;
+        }
+    }
+}
+
+/// malformed stream: NaN / inf bounds, zero / negative / NaN steps, inverted intervals (model
+/// correspondence incl. panics only; the oracles skip invalid intervals)
+fn case_malformed(out: &mut Out, r: &mut Rng, id: &str) {
+    out.case(id);
+    let mut fc = FCase::new();
+    let weird = |r: &mut Rng| -> f64 {
+        match r.below(9) {
+            0 => f64::NAN,
+            1 => f64::INFINITY,
+            2 => f64::NEG_INFINITY,
+            3 => 0.0,
+            4 => -0.0,
+            5 => f64::MAX,
+            6 => f64::MIN_POSITIVE,
+            7 => -1.0,
+            _ => r.range(-50, 50) as f64 * 0.25,
+        }
+    };
+    let (lo, hi) = (weird(r), weird(r));
+    let step = match r.below(5) { 0 => 0.0, 1 => -0.5, 2 => f64::NAN, 3 => f64::INFINITY, _ => 0.25 };
+    apply(&mut fc, out, &format!("fl.fi.raw {} {} {}", sf(lo), sf(hi), sf(step)));
+    for _ in 0..r.range(2, 6) {
+        let x = if r.chance(1, 2) { weird(r) } else { r.range(-60, 60) as f64 * 0.2 };
+        let line = match r.below(12) {
+            0 => format!("fl.fi.next {}", sf(x)),
+            1 => format!("fl.fi.prev {}", sf(x)),
+            2 => format!("fl.fi.round {}", sf(x)),
+            3 => format!("fl.fi.floor {}", sf(x)),
+            4 => format!("fl.fi.ceil {}", sf(x)),
+            5 => "fl.fi.mid".to_string(),
+            6 => format!("fl.fi.q contains {}", sf(x)),
+            7 => "fl.fi.q fixed".to_string(),
+            8 => "fl.fi.q steps".to_string(),
+            9 => format!("fl.fi.below {}", sf(x)),
+            10 => format!("fl.fi.above {}", sf(x)),
+            _ => "fl.fi.q empty".to_string(),
+        };
+        apply(&mut fc, out, &line);
+    }
+    add_float_var(&mut fc, out, lo, hi, step);
+    add_int_var(&mut fc, out, &[-1, 0, 2]);
+    for _ in 0..r.range(1, 4) {
+        let m = if r.chance(1, 4) { FV::I(r.range(-3, 3) as i32) } else { FV::F(if r.chance(1, 2) { weird(r) } else { r.range(-60, 60) as f64 * 0.2 }) };
+        let x = if r.chance(3, 4) { 0 } else { 1 };
+        let dv = if r.chance(2, 3) { 0 } else { 1 };
+        let v = gen_view(r, x, 0.25, dv);
+        let op = if r.chance(1, 2) { "fl.ctx.min" } else { "fl.ctx.max" };
+        apply(&mut fc, out, &format!("{op} {} {}", v.tokens(), m.tokens()));
+        if last_failed(out) {
+            return;
+        }
+    }
+    if r.chance(1, 2) {
+        let cs = vec![weird(r), 1.0];
+        let k = FK::Lin(r.below(3) as u8, cs, vec![0, 1], weird(r), None);
+        apply(&mut fc, out, &format!("fl.prune {}", k.tokens()));
+    }
+}
+
+/// small universe, exhaustively: every interval [a*step, b*step] with |a|,|b| <= u, every bound
+/// h*step/2 with |h| <= 2u+4, both ops, plain variable
+fn suite_exhaustive(out: &mut Out, u: i64) {
+    for step in [0.25f64, 0.1, 1e-6] {
+        for a in -u..=u {
+            for b in a..=u {
+                for h in (-2 * u - 4)..=(2 * u + 4) {
+                    for is_min in [true, false] {
+                        out.case(&format!("exh-{step}-{a}-{b}-{h}-{}", if is_min { "min" } else { "max" }));
+                        let mut fc = FCase::new();
+                        add_float_var(&mut fc, out, a as f64 * step, b as f64 * step, step);
+                        let m = h as f64 * step / 2.0;
+                        apply(&mut fc, out, &format!("{} v 0 f {}", if is_min { "fl.ctx.min" } else { "fl.ctx.max" }, sf(m)));
+                    }
+                }
+            }
+        }
+    }
+}
+
+pub fn suite(out: &mut Out, seed: u64, count: u64, args: &[String]) {
+    let mode = args.iter().position(|a| a == "--mode").and_then(|i| args.get(i + 1)).cloned().unwrap_or_else(|| "all".into());
+    if mode == "replay" {
+        // `float --mode replay --ops FILE`: re-run a protocol file of this suite verbatim
+        // (incl. the `#flapi` lines, which the generic `replay` of main.rs does not dispatch)
+        let path = args.iter().position(|a| a == "--ops").and_then(|i| args.get(i + 1)).cloned().unwrap_or_default();
+        let text = std::fs::read_to_string(&path).unwrap_or_default();
+        for line in text.lines() {
+            if let Some(id) = line.strip_prefix("case ") {
+                out.case(id.trim());
+            } else if line.starts_with("fl.") || line.starts_with("#flapi ") {
+                replay_line(out, line);
+            }
+        }
+        return;
+    }
+    if mode == "exh" {
+        let u: i64 = args.iter().position(|a| a == "--universe").and_then(|i| args.get(i + 1)).and_then(|s| s.parse().ok()).unwrap_or(3);
+        case_selftest(out);
+        suite_exhaustive(out, u);
+        return;
+    }
+    let mut root = Rng::new(seed ^ 0xF10A7_C0DE);
+    case_selftest(out);
+    for c in 0..count {
+        let mut r = root.fork();
+        let id = format!("f{seed}-{c}");
+        match (mode.as_str(), c % 10) {
+            ("fi", _) | ("all", 0..=2) => case_fi(out, &mut r, &id),
+            ("ctx", _) | ("all", 3..=5) => case_ctx(out, &mut r, &id),
+            ("prune", _) | ("all", 6..=7) => case_prune(out, &mut r, &id),
+            ("malformed", _) | ("all", 8) => case_malformed(out, &mut r, &id),
+            _ => case_api(out, &mut r, &id),
+        }
+    }
+}
+
+// ---------------------------------------------------------------------------------------------
+// API-level oracle stream (`#flapi` lines): float / mixed models built through
+// `selen::prelude::Model` AROUND A WITNESS POINT; C07: solve() must not answer NoSolution;
+// C06: the returned point lies in the declared bounds, integer variables take integer values of
+// their domain and every row holds within  Σ|cᵢ|·(max(3·step, 1e-5·|xᵢ|) + 1.5·step).
+// The Lean model answers `-` to these lines (oracle-only).
+// ---------------------------------------------------------------------------------------------
+use selen::prelude as sp;
+use selen::prelude::{Model, ModelExt, SolverError, VarIdExt};
+use selen::verif_hooks as hooks;
+
+#[derive(Clone, Debug)]
+enum AVar {
+    F(f64, f64, f64), // lo hi witness
+    I(i32, i32, i32),
+}
+
+#[derive(Clone, Debug)]
+enum ARow {
+    Le(Vec<f64>, Vec<usize>, f64),
+    Eq(Vec<f64>, Vec<usize>, f64),
+    VLe(usize, usize),
+    VLt(usize, usize),
+    VNe(usize, usize),
+    VEq(usize, usize),
+    CLe(usize, f64),
+    CGe(usize, f64),
+}
+
+#[derive(Clone, Debug)]
+struct AModel {
+    digits: i32,
+    style: u8,
+    vars: Vec<AVar>,
+    rows: Vec<ARow>,
+}
+
+impl AModel {
+    fn line(&self) -> String {
+        let vs: Vec<String> = self.vars.iter().map(|v| match v {
+            AVar::F(a, b, w) => format!("f {} {} {}", sf(*a), sf(*b), sf(*w)),
+            AVar::I(a, b, w) => format!("i {a} {b} {w}"),
+        }).collect();
+        let lin = |k: &str, cs: &Vec<f64>, xs: &Vec<usize>, c: &f64| {
+            format!("{k} {} {} {} {}", xs.len(), cs.iter().map(|c| sf(*c)).collect::<Vec<_>>().join(" "), xs.iter().map(|x| x.to_string()).collect::<Vec<_>>().join(" "), sf(*c))
+        };
+        let rs: Vec<String> = self.rows.iter().map(|r| match r {
+            ARow::Le(cs, xs, c) => lin("le", cs, xs, c),
+            ARow::Eq(cs, xs, c) => lin("eq", cs, xs, c),
+            ARow::VLe(x, y) => format!("vle {x} {y}"),
+            ARow::VLt(x, y) => format!("vlt {x} {y}"),
+            ARow::VNe(x, y) => format!("vne {x} {y}"),
+            ARow::VEq(x, y) => format!("veq {x} {y}"),
+            ARow::CLe(x, k) => format!("cle {x} {}", sf(*k)),
+            ARow::CGe(x, k) => format!("cge {x} {}", sf(*k)),
+        }).collect();
+        format!("#flapi p={} style={} ; {} | {}", self.digits, self.style, vs.join(" ; "), rs.join(" ; "))
+    }
+    fn parse(line: &str) -> Option<AModel> {
+        let rest = line.strip_prefix("#flapi ")?;
+        let (head, rows) = rest.split_once(" | ")?;
+        let mut parts = head.split(" ; ");
+        let h: Vec<&str> = parts.next()?.split_whitespace().collect();
+        let digits = h.first()?.strip_prefix("p=")?.parse().ok()?;
+        let style = h.get(1)?.strip_prefix("style=")?.parse().ok()?;
+        let mut vars = vec![];
+        for p in parts {
+            let w: Vec<&str> = p.split_whitespace().collect();
+            match *w.first()? {
+                "f" => vars.push(AVar::F(pf(w.get(1)?)?, pf(w.get(2)?)?, pf(w.get(3)?)?)),
+                "i" => vars.push(AVar::I(w.get(1)?.parse().ok()?, w.get(2)?.parse().ok()?, w.get(3)?.parse().ok()?)),
+                _ => return None,
+            }
+        }
+        let mut rs = vec![];
+        for p in rows.split(" ; ") {
+            let w: Vec<&str> = p.split_whitespace().collect();
+            let u = |i: usize| -> Option<usize> { w.get(i)?.parse().ok() };
+            match *w.first()? {
+                k @ ("le" | "eq") => {
+                    let n = u(1)?;
+                    let cs: Option<Vec<f64>> = (0..n).map(|i| pf(w.get(2 + i)?)).collect();
+                    let xs: Option<Vec<usize>> = (0..n).map(|i| u(2 + n + i)).collect();
+                    let c = pf(w.get(2 + 2 * n)?)?;
+                    rs.push(if k == "le" { ARow::Le(cs?, xs?, c) } else { ARow::Eq(cs?, xs?, c) });
+                }
+                "vle" => rs.push(ARow::VLe(u(1)?, u(2)?)),
+                "vlt" => rs.push(ARow::VLt(u(1)?, u(2)?)),
+                "vne" => rs.push(ARow::VNe(u(1)?, u(2)?)),
+                "veq" => rs.push(ARow::VEq(u(1)?, u(2)?)),
+                "cle" => rs.push(ARow::CLe(u(1)?, pf(w.get(2)?)?)),
+                "cge" => rs.push(ARow::CGe(u(1)?, pf(w.get(2)?)?)),
+                _ => return None,
+            }
+        }
+        Some(AModel { digits, style, vars, rows: rs })
+    }
+    fn is_float(&self, x: usize) -> bool {
+        matches!(self.vars[x], AVar::F(..))
+    }
+    /// build the selen model; returns the variable handles
+    fn build(&self) -> (Model, Vec<sp::VarId>) {
+        let cfg = sp::config::SolverConfig::default().with_float_precision(self.digits).with_timeout_ms(800);
+        let mut m = Model::with_config(cfg);
+        let ids: Vec<sp::VarId> = self.vars.iter().map(|v| match v {
+            AVar::F(a, b, _) => m.float(*a, *b),
+            AVar::I(a, b, _) => m.int(*a, *b),
+        }).collect();
+        for r in &self.rows {
+            match (r, self.style) {
+                (ARow::Le(cs, xs, c), 0) => { let vs: Vec<_> = xs.iter().map(|x| ids[*x]).collect(); m.lin_le(cs, &vs, *c) }
+                (ARow::Eq(cs, xs, c), 0) => { let vs: Vec<_> = xs.iter().map(|x| ids[*x]).collect(); m.lin_eq(cs, &vs, *c) }
+                (ARow::Le(cs, xs, c), 2) => { let vs: Vec<_> = xs.iter().map(|x| ids[*x]).collect(); sp::lin_le(&mut m, cs, &vs, *c) }
+                (ARow::Eq(cs, xs, c), 2) => { let vs: Vec<_> = xs.iter().map(|x| ids[*x]).collect(); sp::lin_eq(&mut m, cs, &vs, *c) }
+                (ARow::Le(cs, xs, c), _) | (ARow::Eq(cs, xs, c), _) => {
+                    let mut e = ids[xs[0]].mul(sp::float(cs[0]));
+                    for (ci, xi) in cs.iter().zip(xs).skip(1) {
+                        e = e.add(ids[*xi].mul(sp::float(*ci)));
+                    }
+                    let k = if matches!(r, ARow::Le(..)) { e.le(sp::float(*c)) } else { e.eq(sp::float(*c)) };
+                    m.new(k);
+                }
+                (ARow::VLe(x, y), 2) => sp::le(&mut m, ids[*x], ids[*y]),
+                (ARow::VLt(x, y), 2) => sp::lt(&mut m, ids[*x], ids[*y]),
+                (ARow::VNe(x, y), 2) => sp::ne(&mut m, ids[*x], ids[*y]),
+                (ARow::VEq(x, y), 2) => sp::eq(&mut m, ids[*x], ids[*y]),
+                (ARow::VLe(x, y), 0) => m.lin_le(&[1.0, -1.0], &[ids[*x], ids[*y]], 0.0),
+                (ARow::VEq(x, y), 0) => m.lin_eq(&[1.0, -1.0], &[ids[*x], ids[*y]], 0.0),
+                (ARow::VNe(x, y), 0) => m.lin_ne(&[1.0, -1.0], &[ids[*x], ids[*y]], 0.0),
+                (ARow::VLe(x, y), _) => { m.new(ids[*x].le(ids[*y])); }
+                (ARow::VLt(x, y), _) => { m.new(ids[*x].lt(ids[*y])); }
+                (ARow::VNe(x, y), _) => { m.new(ids[*x].ne(ids[*y])); }
+                (ARow::VEq(x, y), _) => { m.new(ids[*x].eq(ids[*y])); }
+                (ARow::CLe(x, k), 0) => m.lin_le(&[1.0], &[ids[*x]], *k),
+                (ARow::CGe(x, k), 0) => m.lin_le(&[-1.0], &[ids[*x]], -*k),
+                (ARow::CLe(x, k), 2) => sp::le(&mut m, ids[*x], sp::float(*k)),
+                (ARow::CGe(x, k), 2) => sp::ge(&mut m, ids[*x], sp::float(*k)),
+                (ARow::CLe(x, k), _) => { m.new(ids[*x].le(sp::float(*k))); }
+                (ARow::CGe(x, k), _) => { m.new(ids[*x].ge(sp::float(*k))); }
+            }
+        }
+        (m, ids)
+    }
+    fn row_vars(&self, r: &ARow) -> Vec<(f64, usize)> {
+        match r {
+            ARow::Le(cs, xs, _) | ARow::Eq(cs, xs, _) => cs.iter().cloned().zip(xs.iter().cloned()).collect(),
+            ARow::VLe(x, y) | ARow::VLt(x, y) | ARow::VNe(x, y) | ARow::VEq(x, y) => vec![(1.0, *x), (-1.0, *y)],
+            ARow::CLe(x, _) => vec![(1.0, *x)],
+            ARow::CGe(x, _) => vec![(-1.0, *x)],
+        }
+    }
+    /// does the value vector `v` satisfy row `r` within the C06 tolerance (exact arithmetic);
+    /// returns the violation description
+    fn check_row(&self, r: &ARow, v: &[f64]) -> Option<String> {
+        let step = precision_to_step_size(self.digits);
+        let terms = self.row_vars(r);
+        let mut lhs = Ex::zero();
+        let mut tol = Ex::zero();
+        for (c, x) in &terms {
+            lhs = lhs.add(&exf(*c).mul(&exf(v[*x])));
+            let t = (3.0 * step).max(1e-5 * v[*x].abs());
+            tol = tol.add(&exf(*c).abs().mul(&exf(t).add(&exf(step).add(&exf(step).scale2(-1)))));
+        }
+        let rhs = match r {
+            ARow::Le(_, _, c) | ARow::Eq(_, _, c) => exf(*c),
+            ARow::CLe(_, k) => exf(*k),
+            ARow::CGe(_, k) => exf(-*k),
+            _ => Ex::zero(),
+        };
+        let d = lhs.sub(&rhs);
+        let bad = match r {
+            ARow::Le(..) | ARow::VLe(..) | ARow::CLe(..) | ARow::CGe(..) => d.gt(&tol),
+            ARow::VLt(..) => d.ge(&tol),
+            ARow::Eq(..) | ARow::VEq(..) => d.abs().gt(&tol),
+            ARow::VNe(..) => d.is_zero(),
+        };
+        if bad { Some(format!("lhs-rhs = {:e}, tolerance {:e}", d.approx(), tol.approx())) } else { None }
+    }
+    /// does the witness satisfy the equality row EXACTLY (exact arithmetic on the f64 values)
+    fn eq_exact_at_witness(&self, r: &ARow) -> bool {
+        let w = |x: usize| match self.vars[x] { AVar::F(_, _, w) => w, AVar::I(_, _, w) => w as f64 };
+        match r {
+            ARow::Eq(cs, xs, c) => {
+                let mut sum = Ex::zero();
+                for (ci, xi) in cs.iter().zip(xs) {
+                    sum = sum.add(&exf(*ci).mul(&exf(w(*xi))));
+                }
+                sum.sub(&exf(*c)).is_zero()
+            }
+            _ => true,
+        }
+    }
+    fn row_tag(&self, r: &ARow) -> &'static str {
+        let terms = self.row_vars(r);
+        let all_int = terms.iter().filter(|(c, _)| c.abs() >= 1e-12).all(|(_, x)| !self.is_float(*x));
+        match r {
+            ARow::VNe(x, y) if self.is_float(*x) || self.is_float(*y) => "float-ne-ignored",
+            ARow::Le(..) | ARow::CLe(..) | ARow::CGe(..) | ARow::VLe(..) if all_int => "int-var-in-float-linear",
+            ARow::VLe(x, y) | ARow::VLt(x, y) | ARow::VEq(x, y) if self.is_float(*x) || self.is_float(*y) => "float-varvar-cmp-ignored",
+            _ => "-",
+        }
+    }
+}
+
+fn api_run(out: &mut Out, am: &AModel) {
+    let line = am.line();
+    let l = out.emit(line.clone(), "-");
+    out.stat("api.models");
+    out.stat(&format!("api.style{}", am.style));
+    hooks::take_path_flags();
+    let solve = |am: &AModel| guarded(|| { let (m, ids) = am.build(); (m.solve(), ids) });
+    let Some((res, ids)) = solve(am) else {
+        out.fail(l, "C17", "-", format!("panic in solve() of {line}"));
+        return;
+    };
+    let (lp, _fp) = hooks::take_path_flags();
+    if lp {
+        out.stat("api.root-lp-applied");
+    }
+    match res {
+        Err(SolverError::NoSolution { .. }) => {
+            out.stat("api.NoSolution");
+            // attribution: does the model solve with the root LP step switched off?
+            hooks::set_root_lp_disabled(true);
+            let again = solve(am).map(|(r, _)| r.is_ok()).unwrap_or(false);
+            hooks::set_root_lp_disabled(false);
+            // an equality row that holds at the witness only up to the f64 rounding of its
+            // constant is outside the strict hypothesis of C07 ("every equality exactly")
+            let inexact = am.rows.iter().any(|r| matches!(r, ARow::Eq(..)) && !am.eq_exact_at_witness(r));
+            // a float equality row that also contains an integer variable: the integer bounds are
+            // ceil/floor of a quotient that carries the float rounding / quantization error, with
+            // no tolerance (known finding `float-eq-int-var-rounding`)
+            let mixed_eq = am.rows.iter().any(|r| match r {
+                ARow::Eq(cs, xs, _) => {
+                    let nz: Vec<usize> = cs.iter().zip(xs).filter(|(c, _)| c.abs() >= 1e-12).map(|(_, x)| *x).collect();
+                    nz.iter().any(|x| am.is_float(*x)) && nz.iter().any(|x| !am.is_float(*x))
+                }
+                _ => false,
+            });
+            let tag = if again { "root-lp" } else if mixed_eq { "float-eq-int-var-rounding" } else if inexact { "float-eq-inexact-witness" } else { "-" };
+            out.fail(l, "C07", tag, "solve() = NoSolution although the witness point satisfies every row with margin".to_string());
+        }
+        Err(e) => {
+            out.stat(&format!("api.err.{}", match e { SolverError::Timeout { .. } => "Timeout", SolverError::InvalidConstraint { .. } => "InvalidConstraint", _ => "other" }));
+            if !matches!(e, SolverError::Timeout { .. } | SolverError::MemoryLimit { .. }) {
+                out.fail(l, "C07", "-", format!("solve() = Err({e}) on a satisfiable float model"));
+            }
+        }
+        Ok(sol) => {
+            out.stat("api.Ok");
+            let mut v = vec![];
+            for (i, d) in am.vars.iter().enumerate() {
+                match (d, sol[ids[i]]) {
+                    (AVar::F(lo, hi, _), sp::Val::ValF(f)) => {
+                        if !(f >= *lo && f <= *hi) {
+                            out.fail(l, "C06", "-", format!("float variable {i} = {f:e} outside its declared bounds [{lo:e},{hi:e}]"));
+                        }
+                        v.push(f);
+                    }
+                    (AVar::I(lo, hi, _), sp::Val::ValI(k)) => {
+                        if k < *lo || k > *hi {
+                            out.fail(l, "C06", "-", format!("integer variable {i} = {k} outside {lo}..{hi}"));
+                        }
+                        v.push(k as f64);
+                    }
+                    (AVar::F(..), sp::Val::ValI(k)) => {
+                        out.stat("api.float-var-reported-as-int");
+                        v.push(k as f64);
+                    }
+                    (AVar::I(..), sp::Val::ValF(f)) => {
+                        out.fail(l, "C06", "-", format!("integer variable {i} reported with the float value {f:e}"));
+                        v.push(f);
+                    }
+                }
+            }
+            for r in &am.rows {
+                if let Some(d) = am.check_row(r, &v) {
+                    let mut tag = am.row_tag(r);
+                    if tag == "-" && lp {
+                        tag = "root-lp";
+                    }
+                    out.fail(l, "C06", tag, format!("row {r:?} violated by the returned point {v:?}: {d}"));
+                }
+            }
+        }
+    }
+}
+
+fn case_api(out: &mut Out, r: &mut Rng, id: &str) {
+    out.case(id);
+    let digits = *r.pick(&[2, 3, 4, 6, 6, 6]);
+    let step = precision_to_step_size(digits);
+    let nv = r.range(1, 4) as usize;
+    let mut vars = vec![];
+    for _ in 0..nv {
+        if r.chance(1, 4) {
+            let lo = r.range(-6, 3) as i32;
+            let hi = lo + r.range(0, 8) as i32;
+            vars.push(AVar::I(lo, hi, r.range(lo as i64, hi as i64) as i32));
+        } else {
+            let scale = *r.pick(&[1.0, 1.0, 10.0, 100.0, 1000.0]);
+            let lo = (r.range(-2000, 1000) as f64) * 0.01 * scale;
+            let hi = lo + (r.range(0, 3000) as f64) * 0.01 * scale;
+            let k = ((lo + (hi - lo) * (r.below(1001) as f64 / 1000.0)) / step).round();
+            let mut w = (k * step).clamp(lo, hi);
+            if r.chance(1, 2) {
+                // a witness that is on the decimal grid AND dyadic (multiple of 1/4), if there is one
+                let q = (w * 4.0).round() / 4.0;
+                if q >= lo && q <= hi { w = q; }
+            }
+            vars.push(AVar::F(lo, hi, w));
+        }
+    }
+    let wv = |x: usize| match vars[x] { AVar::F(_, _, w) => w, AVar::I(_, _, w) => w as f64 };
+    let mut rows = vec![];
+    for _ in 0..r.range(1, 4) {
+        let kind = r.below(12);
+        let x = r.below(nv as u64) as usize;
+        let y = r.below(nv as u64) as usize;
+        match kind {
+            0..=4 => {
+                let n = r.range(1, nv as i64) as usize;
+                let mut xs: Vec<usize> = (0..nv).collect();
+                for i in 0..nv {
+                    let j = r.range(i as i64, nv as i64 - 1) as usize;
+                    xs.swap(i, j);
+                }
+                xs.truncate(n);
+                let cs: Vec<f64> = xs.iter().map(|_| match r.below(5) {
+                    0 => 1.0,
+                    1 => -1.0,
+                    2 => r.range(-5, 5) as f64,
+                    3 => r.range(-20, 20) as f64 * 0.5,
+                    _ => r.range(-30, 30) as f64 * 0.1,
+                }).collect();
+                let sum: f64 = cs.iter().zip(&xs).map(|(c, x)| c * wv(*x)).sum();
+                let sum_abs: f64 = cs.iter().map(|c| c.abs()).sum();
+                if kind == 4 {
+                    // equalities: prefer small dyadic coefficients so that the row can hold exactly
+                    let cs: Vec<f64> = if r.chance(2, 3) { xs.iter().map(|_| *r.pick(&[1.0, -1.0, 2.0, -2.0, 0.5, -0.5, 3.0, 4.0, -3.0])).collect() } else { cs };
+                    let sum: f64 = cs.iter().zip(&xs).map(|(c, x)| c * wv(*x)).sum();
+                    let row = ARow::Eq(cs, xs, sum);
+                    rows.push(row);
+                } else {
+                    let margin = step * sum_abs * r.range(10, 200) as f64 + sum.abs() * 1e-9;
+                    rows.push(ARow::Le(cs, xs, sum + margin));
+                }
+            }
+            5 | 6 => {
+                if x != y && wv(x) + 20.0 * step <= wv(y) { rows.push(if kind == 5 { ARow::VLe(x, y) } else { ARow::VLt(x, y) }); }
+                else { rows.push(ARow::CLe(x, wv(x) + step * r.range(10, 400) as f64)); }
+            }
+            7 => {
+                if x != y && (wv(x) - wv(y)).abs() >= 20.0 * step { rows.push(ARow::VNe(x, y)); }
+                else { rows.push(ARow::CGe(x, wv(x) - step * r.range(10, 400) as f64)); }
+            }
+            8 => {
+                if x != y && wv(x) == wv(y) { rows.push(ARow::VEq(x, y)); }
+                else { rows.push(ARow::CGe(x, wv(x) - step * r.range(10, 400) as f64)); }
+            }
+            9 => rows.push(ARow::CLe(x, wv(x) + step * r.range(10, 400) as f64)),
+            _ => rows.push(ARow::CGe(x, wv(x) - step * r.range(10, 400) as f64)),
+        }
+    }
+    let am = AModel { digits, style: r.below(3) as u8, vars, rows };
+    for row in &am.rows {
+        if matches!(row, ARow::Eq(..)) {
+            out.stat(if am.eq_exact_at_witness(row) { "api.eq-row.exact" } else { "api.eq-row.inexact" });
+        }
+    }
+    api_run(out, &am);
+}
+
+fn api_line(out: &mut Out, line: &str) {
+    match AModel::parse(line) {
+        Some(am) => api_run(out, &am),
+        None => { out.emit(line, "-"); }
+    }
+}
